@@ -74,7 +74,7 @@ def all_faults(b):
         for seq in (False, True):
             out.append(('descriptor', ('sequence' if seq else 'element') + '@%d' % pos, streams.fault_descriptor(b, pos, seq)))
     for sec in (1, 2, 3, 4):
-        for delta in (-2, -1, 1, 2):
+        for delta in (-2, -1, 1, 2, 4, 5, 8):      # (+4 and more: the section swallows the end section and what follows)
             d = streams.fault_section_length(b, sec, delta)
             if d is not None:
                 out.append(('section-length', 's%d%+d' % (sec, delta), d))
